@@ -2106,7 +2106,9 @@ def run(ctx) -> None:
                 "{delete, truncate at 0/1/mid/end-1 + every structural boundary (+-1) + sampled offsets, random bytes, b'{}', text, "
                 "byte flips at sampled and structural offsets, swap with a sibling of the same kind, transient OSError at every call "
                 "site incl. mid-stream} x {scan, scan(parallel=2), scan_batches(2), iter_records, row_count} x verify on/off; "
-                "a case is distinct by (table, file, damage, api, verify)")
+                "a case is distinct by (table, file, damage, api, verify); the same through ONE handle that read the undamaged table "
+                "before the damage, and through ONE handle on which an earlier read RAISED (the nine reads with the damage in place, "
+                "then the nine reads after it has cleared; distinct by (table, file, damage, api, verify, damaged|cleared))")
     ctx.trusted_base += [
         "translator/gen_read.py (exception tuples of the two Avro fallbacks; golden ASTs of 25 read-path functions)",
         "parser outcomes fed to the model are measured with fastavro / json / pyarrow on the same bytes "
@@ -2164,8 +2166,7 @@ def run(ctx) -> None:
     oracle_options(ctx, os.path.join(ctx.scratch, "to"))
     oracle_mid_call(ctx, os.path.join(ctx.scratch, "tm"), [[2, 2], [3]])
     for i, (shape, variant) in enumerate([([[2, 1], [2], [1]], None)]
-                                         + ([(history_shapes(ctx)[0], None), ([[2, 1], [2], [1]], "json"), ([[2], [1], [1]], "no-pointer"),
-                                             ([[2, 1], [2], [1]], "dup"), ([[2, 1], [2], [1]], "nosum")]
+                                         + ([(history_shapes(ctx)[0], None), ([[2, 1], [2], [1]], "json"), ([[2], [1], [1]], "no-pointer")]
                                             if ctx.tier == "thorough" else [])):
         oracle_reread(ctx, os.path.join(ctx.scratch, f"tr{i}"), shape, variant, f"read-again:{variant or ('history' if i else 'standard')}")
     for i, (variant, sess) in enumerate([(None, False), ("no-pointer", False), (None, True)]
